@@ -106,20 +106,22 @@ def readStream (b : Broker) (since : Pos) (limit : Option Nat) : Option (List Pu
     let start := max since.off b.lo          -- first returned offset is start+1
     some (takeOpt limit (b.pubs.filter (fun p => p.off > start)), b.pos)
 
-/-- Node.MapStreamRead: broker read + trim detection. -/
+/-- Node.MapStreamRead: broker read + detection of a lost range (after fix 5b9907a0: also for position 0 and
+for an empty result below the stream top; skipped only for Limit = 0). -/
 def nodeStreamRead (b : Broker) (since : Pos) (limit : Option Nat) : Option (List Pub × Pos) :=
   match readStream b since limit with
   | none => none
   | some (pubs, pos) =>
+    if limit = some 0 then some (pubs, pos) else
     match pubs with
-    | p :: _ => if since.off > 0 ∧ p.off > since.off + 1 then none else some (pubs, pos)
-    | [] => some (pubs, pos)
+    | p :: _ => if p.off > since.off + 1 then none else some (pubs, pos)
+    | [] => if since.off < pos.off then none else some (pubs, pos)
 
 /-- the changes after `since` were lost by the stream (trimmed or expired) -/
 def gap (b : Broker) (since : Pos) : Prop := since.off < b.lo
 
-/-- … and `nodeStreamRead` cannot see it: the result is empty (stream expired / fully trimmed) or the
-client's offset is 0 (the detection is skipped for offset 0). -/
+/-- the two situations the detection missed before fix 5b9907a0 (empty result, or client offset 0);
+kept to state that they are now detected as well. -/
 def undetectedGap (b : Broker) (since : Pos) : Prop :=
   since.off < b.lo ∧ (b.lo = b.top ∨ since.off = 0)
 
